@@ -609,6 +609,11 @@ def ch_own(ctx, r):
             if "Arc<" in t and "Mutex<" in t:
                 n += 1
                 hv = holds_values(items, fl["ty"])
+                # a value in transit owns what it names: a non-owning handle dies with the writer
+                weak = [w for w in ("Weak<", "*const", "*mut", "&'") if w in t]
+                r.ob(not weak, f"vm.rs:{st['name']}.{fl['name']}:shared-container-holds-non-owning-handle", VM, fl["l"],
+                     f"{st['name']}.{fl['name']}: the element type of the shared container reaches {weak}: a value in transit that does not own what it names (e.g. a channel handle sent over a channel) vanishes when the writer finishes or collects, and the reader receives something else than what was written",
+                     sample=f"{st['name']}.{fl['name']}: every part of a queued message is owned")
                 r.ob(not hv, f"vm.rs:{st['name']}.{fl['name']}:shared-container-holds-thread-local-values", VM, fl["l"],
                      f"{st['name']}.{fl['name']}: {fl['ty']} is shared between threads (deep_copy clones the Arc) but stores `Value`s, i.e. raw pointers into the writing thread's heap: "
                      "a value read after the writer finished or collected is a dangling pointer, and the reader's collector marks objects of a foreign heap",
